@@ -21,7 +21,13 @@ SCOPE = ["R", "S", "jobs"]
 
 
 def run(ctx, res):
-    recs = gwcheck.standard_run(ctx, res, "c01", ["c01"], SCOPE, 300, 6000, mqtt_rate=0.25)
+    from harness.gen import scenarios
+    from harness.gen.histories import VERSIONS
+    cases = (scenarios.directed_cases(ctx, "c01x", 6, scenarios.sleep_history, scenarios.SLEEP_VERSIONS, length=(10, 16))
+             + scenarios.directed_cases(ctx, "c01s", ctx.budget(120, 2500), scenarios.sleep_history, scenarios.SLEEP_VERSIONS)
+             + scenarios.directed_cases(ctx, "c01o", ctx.budget(80, 1500), scenarios.ota_history, VERSIONS)
+             + gwcheck.gen_cases(ctx, "c01", ctx.budget(200, 4000), mqtt_rate=0.25))
+    recs = gwcheck.run_cases(ctx, res, cases, ["c01"], SCOPE, "c01")
     for r in recs:
         st = r["stats"]
         if st.get("c01:line:accepted") and st.get("c01:line:rejected"):
